@@ -64,6 +64,8 @@ def wire(cmd):
 
 
 def token_of(cmd):
+    if "SAME" in cmd:
+        return None
     return {"SET": 2, "SETEX": 2, "APPEND": 2, "HSET": 3}.get(cmd[0]) and cmd[{"SET": 2, "SETEX": 2, "APPEND": 2, "HSET": 3}[cmd[0]]]
 
 
@@ -149,7 +151,9 @@ def gen_plan(rng, inc, nconn, ncmds, big):
             if big and rng.random() < 0.15:
                 tok = tok + "P" * rng.choice([300, 5000, 70000])
             r = rng.random()
-            if r < 0.30:
+            if r < 0.05:
+                cmds.append(("SET", rng.choice(skeys), "SAME"))   # the same value again and again: still a write, still a new stamp
+            elif r < 0.30:
                 cmds.append(("SET", rng.choice(skeys), tok))
             elif r < 0.38:
                 cmds.append(("SETEX", rng.choice(skeys), tok))
@@ -579,7 +583,7 @@ def stamp_oracle(rep, findings, w, wal_files_by_inc, witness):
         rep.count("wal_stamps_checked")
         st = (e["time"], e["replica"])
         k = e["key"]
-        if k in last and st == last[k][0] and e.get("content") == last[k][2]:
+        if k in last and st == last[k][0] and e.get("content") == last[k][2] and e["kind"] == "hash":
             rep.count("wal_reemissions_of_identical_update")   # e.g. HDEL of a field that does not exist: same state, same stamp, nothing new to order
             continue
         if k in last and not (st > last[k][0]):
